@@ -169,48 +169,80 @@ def check_field_indices(chk, rule: str, fns: list[FuncInfo]) -> int:
 
 
 # ----------------------------------------------------------------------------
-def stage_sequence(p: Path):
-    """[(stage, index, method, direction, node)] along a path, in application order."""
-    seq = []
+def _mixing_call(ff: FuncFacts, call: ast.AST) -> bool:
+    if not isinstance(call, ast.Call):
+        return False
+    mixed: set[int] = set()
+    for arg in list(call.args) + [k.value for k in call.keywords]:
+        for q in ff.paths(arg, spine_only=True):
+            mixed |= path_indices(ff, q, 1)
+    return len(mixed) > 1
+
+
+def stage_segments(ff: FuncFacts, p: Path):
+    """stage operations along a path, split into segments at calls that merge fields or map one field
+    to the other: [[(stage, index, method, direction, node), ...], ...]"""
+    segs = [[]]
     for o in p.ops:
-        if o.kind == "arg":
-            st = stage_of(o.name)
-            if st and o.other == 0 or (st and o.other in ("X", "data")):
-                d = "fwd" if st[2] in FWD else ("inv" if st[2] in INV else None)
-                if d:
-                    seq.append((st[0], st[1], st[2], d, o.node))
-    return seq
+        if o.kind != "arg":
+            continue
+        st = stage_of(o.name)
+        if st and (o.other == 0 or o.other in ("X", "data")):
+            d = "fwd" if st[2] in FWD else ("inv" if st[2] in INV else None)
+            if d:
+                segs[-1].append((st[0], st[1], st[2], d, o.node))
+            continue
+        if st:
+            continue
+        last = o.name.split(".")[-1]
+        if last in RESULT_INDEX or _mixing_call(ff, o.node):
+            segs.append([])
+    return segs
 
 
 def check_stage_chain(chk, rule: str, fn: FuncInfo, exprs: list[tuple[ast.expr, ast.AST, str]], n_stages: int = 3) -> int:
     """exprs: (expression, node for reporting, role) where role in {'data','result'}"""
+    if fn.name in CROSS_MATRIX_FUNCS:
+        return 0
     ff = FuncFacts.of(fn)
     n = 0
+    seen: set[str] = set()
     for e, node, role in exprs:
         for p in ff.paths(e, spine_only=True):
-            seq = stage_sequence(p)
-            if not seq:
+            segs = stage_segments(ff, p)
+            if not any(segs):
                 continue
+            text = f"{role}: " + " | ".join(" -> ".join(f"{s}{i or ''}.{m}" for s, i, m, d, _ in seq) for seq in segs if seq)
+            if text in seen:
+                continue
+            seen.add(text)
             n += 1
             bad = ""
-            for (s1, i1, m1, d1, _), (s2, i2, m2, d2, _) in zip(seq, seq[1:]):
-                r1, r2 = STAGES[s1], STAGES[s2]
-                if i1 and i2 and i1 != i2:
-                    bad = f"{s1}{i1}.{m1} followed by {s2}{i2}.{m2}: stage objects of different fields on one value"
-                elif d1 == "fwd" and d2 == "fwd" and r2 != r1 + 1:
-                    bad = f"forward chain applies {s1} then {s2} (order is preprocessor -> pca -> whitener)"
-                elif d1 == "inv" and d2 == "inv" and r2 != r1 - 1:
-                    bad = f"inverse chain applies {s1} then {s2} (order is whitener -> pca -> preprocessor)"
-                elif d1 != d2 and r1 != r2:
-                    bad = f"{s1}.{m1} followed by {s2}.{m2}: a change of direction must stay at the same stage"
+            for si, seq in enumerate(segs):
+                for (s1, i1, m1, d1, _), (s2, i2, m2, d2, _) in zip(seq, seq[1:]):
+                    r1, r2 = STAGES[s1], STAGES[s2]
+                    if i1 and i2 and i1 != i2 and fn.name in INDEX_EXEMPT and s2 == "preprocessor" and m2.startswith("inverse_transform_scores"):
+                        continue  # e.g. predict: the predicted field-2 scores are labelled with the samples of field 1
+                    if i1 and i2 and i1 != i2:
+                        bad = f"{s1}{i1}.{m1} followed by {s2}{i2}.{m2}: stage objects of different fields on one value"
+                    elif d1 == "fwd" and d2 == "fwd" and r2 != r1 + 1:
+                        bad = f"forward chain applies {s1} then {s2} (order is preprocessor -> pca -> whitener)"
+                    elif d1 == "inv" and d2 == "inv" and r2 != r1 - 1 and not (m2.startswith("inverse_transform_scores") and r2 < r1):
+                        bad = f"inverse chain applies {s1} then {s2} (order is whitener -> pca -> preprocessor)"
+                    elif d1 != d2 and r1 != r2 and not m2.startswith("inverse_transform_scores"):
+                        # scores live in mode space: only the preprocessor relabels them, pca/whitener score maps
+                        # are identities (checked separately), so a scores inverse may start at any stage
+                        bad = f"{s1}.{m1} followed by {s2}.{m2}: a change of direction must stay at the same stage"
+                    if bad:
+                        break
                 if bad:
                     break
-            if not bad and p.atom.kind == "param" and p.atom.name in ("X", "Y", "data") and seq[0][3] == "fwd" and STAGES[seq[0][0]] != 0:
-                bad = f"raw input enters the chain at {seq[0][0]} instead of the preprocessor"
-            if not bad and role == "result":
-                last = seq[-1]
+            first = next((seq for seq in segs if seq), None)
+            if not bad and not fn.name.startswith("_") and segs[0] and p.atom.kind == "param" and p.atom.name in ("X", "Y", "data") and segs[0][0][3] == "fwd" and STAGES[segs[0][0][0]] != 0:
+                bad = f"raw input enters the chain at {segs[0][0][0]} instead of the preprocessor"
+            if not bad and role == "result" and segs[-1]:
+                last = segs[-1][-1]
                 if not (last[3] == "inv" and STAGES[last[0]] == 0):
                     bad = f"the returned value leaves the chain at {last[0]}.{last[2]} instead of through the preprocessor's inverse"
-            chk.check(not bad, rule, fn, node, why=bad,
-                      construct=f"{role}: " + " -> ".join(f"{s}{i or ''}.{m}" for s, i, m, d, _ in seq))
+            chk.check(not bad, rule, fn, node, why=bad, construct=text)
     return n
